@@ -14,6 +14,7 @@ PROPERTY = "C10"
 STATIC_LENS = (3, 32, 1, 5, 17, 2)
 OPS = ("update", "available", "any", "pipe", "fifo", "tx_full", "irq", "read", "clear", "flush_rx", "flush_tx",
        "last_tx_arc", "interrupt_config")
+CONFIG_WRITERS = ("listen_flip", "listen_same", "crc", "power_cycle", "reenter")
 
 
 def decode_status(ctx, nrf, st, what):
@@ -29,11 +30,11 @@ def decode_status(ctx, nrf, st, what):
     ctx.check(nrf.irq_df == ((st & 0x10) != 0), what + ": irq_df = MAX_RT")
 
 
-def h_history(ctx, ops, role, driver="full"):
+def h_history(ctx, ops, role, driver="full", light=False):
     clock = fresh_env(ctx)
     lite = driver == "lite"
     radio, nrf = new_lite(clock) if lite else new_rf24(clock)
-    mode = ctx.choice("dynamic", 3)  # 0 static, 1 dynamic, 2 static configuration followed by ack = True (dynamic again)
+    mode = 1 if light else ctx.choice("dynamic", 3)  # 0 static, 1 dynamic, 2 static configuration followed by ack = True (dynamic again)
     dynamic = mode != 0
     lens = STATIC_LENS if not lite else (7,) * 6  # the lite driver has one global static length
     if mode == 1:
@@ -46,7 +47,7 @@ def h_history(ctx, ops, role, driver="full"):
     for p in range(6):
         nrf.open_rx_pipe(p, bytes([0x40 + p, 9, 8, 7, 6]))
     nrf.listen = (role == "rx")
-    n_rx, n_tx = ctx.choice("n_rx", 4), (0, 1, 3)[ctx.choice("n_tx", 3)]
+    n_rx, n_tx = (ctx.choice("n_rx", 4), (0, 1, 3)[ctx.choice("n_tx", 3)]) if not light else (ctx.choice("n_rx", 2), ctx.choice("n_tx", 2))
     for i in range(n_rx):
         if mode == 2 and not lite:
             pipe = (0, 3, 5)[i]
@@ -74,7 +75,30 @@ def h_history(ctx, ops, role, driver="full"):
         return r
     radio.xfer = spy
 
+    mask = [radio.reg[0] & 0x70]  # ghost: the IRQ mask bits the application last asked for
+
+    def irq_mask_kept(what):
+        ctx.check((radio.reg[0] & 0x70) == mask[0], what + ": the IRQ mask bits are the ones interrupt_config() last established")
+        en = ((~mask[0]) & 0x70) & radio.irq
+        ctx.check(radio.irq_line_active() == (en != 0), what + ": the IRQ line asserts for exactly the enabled events")
+
     for step, op in enumerate(ops):
+        if op in CONFIG_WRITERS:
+            # calls that rewrite CONFIG from the driver's shadow: the mask interrupt_config() established must survive them
+            if op == "listen_flip":
+                nrf.listen = not nrf.listen
+            elif op == "listen_same":
+                nrf.listen = (role == "rx")
+            elif op == "crc":
+                nrf.crc = ctx.int("crc%d" % step, 0, 2)
+            elif op == "power_cycle":
+                nrf.power = False
+                nrf.power = True
+            elif op == "reenter":
+                nrf.__exit__(None, None, None)
+                nrf.__enter__()
+            irq_mask_kept("%s#%d" % (op, step))
+            continue
         rx0, tx0, irq0, cfg0 = [(p, list(d)) for p, d in radio.rx_fifo], [list(e) for e in radio.tx_fifo], radio.irq, radio.reg[0]
         what = "%s#%d" % (op, step)
         exp_rx, exp_tx, exp_irq = rx0, tx0, irq0  # default: nothing changes
@@ -137,6 +161,7 @@ def h_history(ctx, ops, role, driver="full"):
                       what + ": CONFIG mask bits as requested, other CONFIG bits unchanged")
             want = s_or(s_and(a, (irq0 & 0x40) != 0), s_and(b, (irq0 & 0x20) != 0), s_and(c, (irq0 & 0x10) != 0))
             ctx.check(radio.irq_line_active() == want, what + ": the IRQ line asserts for exactly the enabled events")
+            mask[0] = (int(not a) << 6) | (int(not b) << 5) | (int(not c) << 4)
         # exact delta
         ctx.check(len(radio.rx_fifo) == len(exp_rx), what + ": RX FIFO occupancy after the call")
         for (p1, d1), (p2, d2) in zip(radio.rx_fifo, exp_rx):
@@ -160,9 +185,14 @@ def jobs(tier):
     else:
         seqs += [(a, b) for a in OPS for b in OPS]
         seqs += [("read", "read", b) for b in OPS] + [("read", "flush_rx", b) for b in OPS] + [("clear", "read", b) for b in OPS]
+    seqs += [("interrupt_config", w) for w in CONFIG_WRITERS] + [("interrupt_config", "listen_flip", "interrupt_config"),
+                                                                 ("interrupt_config", "reenter", "listen_flip")]
+    if tier != "quick":
+        seqs += [("interrupt_config", w, v) for w in CONFIG_WRITERS for v in CONFIG_WRITERS + ("update", "read", "clear")]
     for s in sorted(set(seqs)):
         for role in ("rx", "tx"):
-            out.append(Job("accessor-history", h_history, dict(ops=list(s), role=role), cost=len(s)))
+            light = any(o in CONFIG_WRITERS for o in s)  # the IRQ mask does not depend on how full the FIFOs are
+            out.append(Job("accessor-history", h_history, dict(ops=list(s), role=role, **({"light": True} if light else {})), cost=len(s)))
     return out
 
 
@@ -172,7 +202,7 @@ META = {
                         "lengths 2/32/1 dynamic or per-pipe static widths 3,32,1,5,17,2), TX occupancy 0/1/3 (ACK payloads in RX "
                         "role, TX payloads in TX role), all 8 flag combinations, ARC_CNT 0..15, all argument combinations",
                "thorough": "all 13x13 pairs and 39 triples"},
-    "outside": ["read(length) with a length different from the payload's (partial reads are not specified by the product "
+    "outside": ["interrupt_config() followed by more than two CONFIG-rewriting calls (listen, crc, power, context re-entry)", "read(length) with a length different from the payload's (partial reads are not specified by the product "
                 "specification)", "traffic-driven histories (covered through C01/C02 with the same radio model)",
                 "histories deeper than 3"],
     "assumptions": ["SimRadio FIFO / STATUS / FIFO_STATUS / OBSERVE_TX semantics (product specification 8.3, 9.1)",
